@@ -28,7 +28,9 @@ LEVEL_TEXT = ("explicit-state search over the real library(assoc) transition fun
 RULE = ("lists: all lists of length <= bound over {1,2,1.0,a,b,\"a\",f(a),X,Y} x routes {lit, cons, bind} x every "
         "observation (one evaluation = one predicate call pattern on one list); non-trivial: the list has "
         "duplicates under == or mixes term kinds. ordsets: all ordered pairs of subsets of the universe; "
-        "non-trivial: both sets non-empty. assoc: breadth-first closure from the empty assoc; non-trivial "
+        "non-trivial: both sets non-empty. long lists: lengths {21,24,33,50,64,100,257,1000} x 23 deterministic key arrangements "
+        "(all equal, alternating, descending runs, sawteeth, strides, mixed standard-order classes) x {literal, rebuilt} with values 1..n; "
+        "non-trivial: some key is repeated. assoc: breadth-first closure from the empty assoc; non-trivial "
         "transition: the tree is restructured (some surviving key changes its parent) or an inner node is deleted.")
 ASSUMPTIONS = ["Python sorted() is a stable sort; Python dict/list semantics",
                "standard order Var < Float < Integer < Atom < Compound as stated by C13; the relative order of "
@@ -106,6 +108,8 @@ def shards(tier):
     sh.append(("ordunion2",))
     sh.append(("ordmember",))
     sh.append(("misc",))
+    for n in LONG_LENS:
+        sh.append(("long", n))
     return sh
 
 
@@ -1151,6 +1155,93 @@ def replay_assoc(w, case):
 
 # --------------------------------------------------------------------------
 
+# --------------------------------------------------------------------------
+# long lists: keysort/2 stability and sort/2 beyond the sorting routines' small-slice paths
+
+LONG_LENS = [21, 24, 33, 50, 64, 100, 257, 1000]
+LONG_KEYS = [("b", "b"), ("2", 2), ("1.0", 1.0), ("f(a)", ("f", "a")), ('"a"', chars_list("a")), ("a", "a"), ("1", 1), ("2.0", 2.0),
+             ("g(a,b)", ("g", "a", "b")), ("[]", "[]")]
+INT_KEYS = [(str(i), i) for i in range(10, 0, -1)]
+
+
+def long_arrangements(n):
+    """-> [(name, [key index per position], key table)] — deterministic arrangements, no sampling"""
+    out = [("all_equal", [0] * n, INT_KEYS)]
+    for k in (2, 3, 5, 10):
+        out.append(("alternating%d" % k, [i % k for i in range(n)], INT_KEYS))           # sawtooth over k keys (k=2: alternating)
+        out.append(("descending%d" % k, [(i * k) // n for i in range(n)], INT_KEYS))      # INT_KEYS is descending: k runs of duplicates
+        out.append(("sawtooth_down%d" % k, [k - 1 - (i % k) for i in range(n)], INT_KEYS))
+        out.append(("stride%d" % k, [(i * 7919 + (i * i) // 3) % k for i in range(n)], INT_KEYS))
+        out.append(("mixed%d" % k, [(i * 7) % k for i in range(n)], LONG_KEYS))
+    out.append(("organ_pipe", [min(i, n - 1 - i) % 10 for i in range(n)], INT_KEYS))
+    out.append(("mixed_blocks", [(i // 7) % 10 for i in range(n)], LONG_KEYS))
+    return out
+
+
+def long_cases(n):
+    for name, idx, table in long_arrangements(n):
+        for route in ("lit", "copy"):
+            yield {"fam": "long", "n": n, "arr": name, "route": route}, idx, table
+
+
+def long_command(idx, table, route):
+    txt = "[" + ",".join("%s-%d" % (table[k][0], i + 1) for i, k in enumerate(idx)) + "]"
+    return "g(%s(%s,Rs), 1)" % ("c14_long" if route == "lit" else "c14_long_copy", txt)
+
+
+def long_expect(idx, table):
+    pairs = [("-", table[k][1], i + 1) for i, k in enumerate(idx)]
+    keys = [p[1] for p in pairs]
+    return [("keysort", mklist(M.keysort(pairs, {}))),
+            ("sort_pairs", mklist(M.sort_dedup(pairs, {}))),
+            ("sort_keys", mklist(M.sort_dedup(keys, {}))),
+            ("list_to_set_keys", mklist(M.list_to_set(keys))),
+            ("keysort_reversed", mklist(M.keysort(pairs[::-1], {})))]
+
+
+def run_long(w, cases, acc):
+    viols = []
+    for batch in px.chunked(list(cases), 12):
+        rs = px.run_goals(w, [long_command(idx, table, c["route"]) for c, idx, table in batch])
+        for (case, idx, table), r in zip(batch, rs):
+            nt = len(set(idx)) < len(idx)
+            if r.abn or r.status == "exc" or len(r.sols) != 1:
+                what = r.abn or ("exc:" + px.formal_sig(r.formal()) if r.status == "exc" else "command_failed")
+                v = {"sig": "long command %s" % what, "case": dict(case, op="*"), "expected": "one record", "observed": repr(r)[:300]}
+                viols.append(v)
+                if acc is not None:
+                    acc.case(nt, "long:abnormal")
+                    acc.violation(v["sig"], v["case"], v["expected"], v["observed"])
+                continue
+            results, _ = unlist(r.sols[0].get("Rs"))
+            for (op, want), res in zip(long_expect(idx, table), results):
+                if case.get("op") not in (None, "*", op):
+                    continue
+                k, p = parse_first(res)
+                ok = k == "sol" and M.variant(want, p)
+                if acc is not None:
+                    acc.case(nt, "long_%s:%s" % (op, k), sample={"n": case["n"], "arrangement": case["arr"], "route": case["route"], "op": op})
+                if not ok:
+                    if k == "sol":
+                        pe, _ = unlist(p)
+                        we, _ = unlist(want)
+                        pos = next((i for i, (a, b) in enumerate(zip(pe, we)) if not M.identical(a, b)), min(len(pe), len(we)))
+                        kind = "wrong_order" if sorted(map(fmt, pe)) == sorted(map(fmt, we)) else "wrong_elements"
+                        obs = "first difference at position %d: %s instead of %s" % (
+                            pos, fmt_obs(pe[pos]) if pos < len(pe) else "end", fmt(we[pos]) if pos < len(we) else "end")
+                    else:
+                        kind = "unexpected_error:" + px.formal_sig(p) if k == "error" else "unexpected_" + k
+                        obs = fmt_obs(p) if p is not None else k
+                    small = "n<=20" if case["n"] <= 20 else "n>20"
+                    v = {"sig": "long %s %s %s %s" % (op, case["route"], small, kind),
+                         "case": dict((kk, vv) for kk, vv in dict(case, op=op).items()),
+                         "expected": "stable standard-order result (%d elements)" % len(unlist(want)[0]), "observed": obs}
+                    viols.append(v)
+                    if acc is not None:
+                        acc.violation(v["sig"], v["case"], v["expected"], v["observed"])
+    return viols
+
+
 def generic_items(fam, tier, shard=None):
     if fam == "ordpair":
         return ordpair_items(tier, shard[1], shard[2])
@@ -1178,6 +1269,8 @@ def run_shard(w, shard, tier):
         run_num(w, shard, acc)
     elif fam == "assoc":
         run_assoc(w, shard[1], acc, tier)
+    elif fam == "long":
+        run_long(w, long_cases(shard[1]), acc)
     else:
         run_generic(w, generic_items(fam, tier, shard), acc, fam)
     return acc.result()
@@ -1194,6 +1287,11 @@ def recheck(w, case, tier):
         return vs[0] if vs else None
     if fam == "assoc":
         return replay_assoc(w, case)
+    if fam == "long":
+        hit = [(dict(c, op=case.get("op")), idx, table) for c, idx, table in long_cases(case["n"])
+               if c["arr"] == case["arr"] and c["route"] == case["route"]]
+        vs = run_long(w, hit, None)
+        return vs[0] if vs else None
     # generic families: regenerate the item with the same identifying fields (both tiers' universes are tried)
     ident = dict((k, v) for k, v in case.items() if k not in ("op", "shape"))
     for t in ("quick", "thorough"):
